@@ -1,0 +1,36 @@
+//go:build verif
+
+package waitlist
+
+import (
+	"math/big"
+
+	"github.com/MinterTeam/minter-go-node/coreV2/types"
+	"github.com/MinterTeam/minter-go-node/rlp"
+)
+
+// VerifPeek returns copies of the waitlist entries of an address as block execution would see them
+// - the cached model if there is one, otherwise the committed record - without putting anything into
+// the cache (read-only accessor for the verification harness: its own look-ups must not warm the
+// cache of the state it observes).
+func (wl *WaitList) VerifPeek(address types.Address) []Item {
+	m := wl.getFromMap(address)
+	if m == nil {
+		path := append([]byte{mainPrefix}, address.Bytes()...)
+		_, enc := wl.immutableTree().Get(path)
+		if len(enc) == 0 {
+			return nil
+		}
+		m = new(Model)
+		if err := rlp.DecodeBytes(enc, m); err != nil {
+			return nil
+		}
+	}
+	m.lock.RLock()
+	defer m.lock.RUnlock()
+	out := make([]Item, 0, len(m.List))
+	for _, it := range m.List {
+		out = append(out, Item{CandidateId: it.CandidateId, Coin: it.Coin, Value: new(big.Int).Set(it.Value)})
+	}
+	return out
+}
